@@ -309,6 +309,12 @@ func (bucket *Bucket) dropCollection(name sgbucket.DataStoreNameImpl) error {
 	if c := bucket.collections[name]; c != nil {
 		c.close()
 		delete(bucket.collections, name)
+	} else {
+		// Not opened through this handle, but its feeds may have been started through another:
+		for _, feed := range bucket.collectionFeeds[name] {
+			feed.close()
+		}
+		delete(bucket.collectionFeeds, name)
 	}
 
 	_, err := bucket._db().Exec(`DELETE FROM collections WHERE scope=? AND name=?`, name.ScopeName(), name.CollectionName())
